@@ -713,22 +713,12 @@ def run_reject(ctx, P, prepared, lits):
                 else:
                     res = call_api(fit, mode, terms[0] if mode == 'pd' else -1, Xq, 0.95, v)
                     lv = [float(x) for x in np.atleast_1d(np.asarray(v, dtype=float))]
-                    ex = [common.f2q(x) if math.isfinite(x) else (Fraction(2) if x > 0 else Fraction(-1)) for x in lv if x == x]
+                    # a NaN level is not inside (0,1): it must be rejected like any other level outside
+                    ex = [common.f2q(x) if math.isfinite(x) else (Fraction(2) if x > 0 else Fraction(-1)) for x in lv]
                 impl = 'ok' if res[0] == 'ok' else res[0]
                 sig = dict(mode=mode, kind=kind, v=repr(v), label=cfg['label'])
                 ctx.case(st, sig, nontrivial=True, sample=dict(sig=sig, impl=impl) if ti == 0 else None)
                 ctx.count('reject-outcome', impl)
-                has_nan = any(x != x for x in lv) or (kind == 'w' and v != v)
-                if has_nan and not (kind == 'q' and any((x <= 0 or x >= 1) for x in lv)):
-                    # a NaN level is neither inside nor (in the order sense) outside (0,1): the code lets it through and
-                    # returns NaN bounds; recorded as an observation, compared with the model only
-                    if impl == 'ok':
-                        ctx.count('suspected-defect', 'NaN level/width accepted (%s)' % mode)
-                    if impl != mo:
-                        ctx.disagree(st, dict(cfg=cfg, mode=mode, kind=kind, v=repr(v)), impl, mo, 'exception class (NaN)')
-                    continue
-                if has_nan:
-                    ex = [Fraction(-1) if (x != x or x <= 0 or x >= 1) else common.f2q(x) for x in lv]
                 must = (ex is not None and (len(ex) == 0 or any(e <= 0 or e >= 1 for e in ex))) or (ex is None)
                 inside = ex is not None and len(ex) > 0 and all(0 < x < 1 for x in lv) and all(0 < e < 1 for e in ex)
                 wrong = (must and impl != 'ValueError') or (inside and impl != 'ok')
